@@ -124,14 +124,15 @@ theorem step_word_first (s : LexState) (i : Nat) (ci : CharInfo) (hs : Ready s) 
 
 /-- whitespace after a name or a number ends the token -/
 theorem step_space_flush (s : LexState) (i : Nat) (ci : CharInfo) (hq : s.qc = []) (ht : s.take = 0)
-    (hn : s.tok.nonempty = true) (hk : s.tok.kind = some .name ∨ s.tok.kind = some .value) (hc : SpaceChar ci) :
+    (hn : s.tok.nonempty = true) (hk : s.tok.kind = some .name ∨ s.tok.kind = some .value ∨ s.tok.kind = some .python)
+    (hc : SpaceChar ci) :
     lexStep s i ci = .ok { s with out := s.tok :: s.out, tok := Tok.fresh } := by
   obtain ⟨hsp, hx⟩ := hc
   obtain ⟨f1, f2, f3, f4, f5, f6, f7, f8, f9⟩ := facts_of hx
   unfold lexStep lexTop lexPlain
   simp only [ht, Nat.lt_irrefl, if_false, hq, f1, f2, f3, f4, f5, f6, f7, Bool.false_eq_true, Bool.or_self,
     hsp, if_true]
-  rcases hk with hk | hk <;> simp [hn, hk, LexState.flush, hq, ht]
+  rcases hk with hk | hk | hk <;> simp [hn, hk, LexState.flush, hq, ht]
 
 theorem wordAll_nonempty (cs : List CharInfo) (t : Tok) (i : Nat) (h : cs ≠ []) :
     (wordAll t cs i).nonempty = true := by
@@ -184,7 +185,7 @@ theorem loop_word (cs : List CharInfo) (sp : CharInfo) (tail : List CharInfo) (i
     rw [step_space_flush
       { s with out := (if s.tok.nonempty then s.tok :: s.out else s.out),
                tok := wordAll (Tok.fresh.update c0.c i (some (wordKind none c0.c))) cs (i + 1) }
-      _ sp hs.1 hs.2.1 hn hk hsp]
+      _ sp hs.1 hs.2.1 hn (hk.elim Or.inl (fun h => Or.inr (Or.inl h))) hsp]
     simp only [hW, hs.1, hs.2.1, List.length_cons]
     congr 1
     omega
@@ -246,6 +247,72 @@ theorem loop_in (p1 ci cn p2 : CharInfo) (tail : List CharInfo) (i : Nat) (s : L
   simp only [lexLoop, e1, e2, e3, e4]
   rfl
 
+/-! ### quoted tokens and calls (the loop lemmas of C15, from a between-tokens state) -/
+
+open FormulaicVerif.Proofs.C15 (updAll updAll_text updAll_span)
+open FormulaicVerif.Proofs.C15Quote (qRun Opener lexLoop_in_quote)
+
+theorem ready_start {s : LexState} (h : Ready s) : Start s :=
+  ⟨h.1, h.2.1, h.2.2.elim Or.inl (fun h => Or.inr ⟨h.1, Or.inl h.2⟩)⟩
+
+theorem flush_out_ready {s : LexState} (h : Ready s) :
+    s.flush.out = (if s.tok.nonempty then s.tok :: s.out else s.out) := by
+  unfold LexState.flush
+  by_cases hn : s.tok.nonempty = true <;> simp [hn]
+
+/-- `` `body` `` / `{body}` from a between-tokens state: the pending operator token (if any) is emitted,
+then ONE token of the quote's kind whose text is the body -/
+theorem loop_quoted (body : List CharInfo) (op cl : CharInfo) (c : Char) (k : TKind) (tail : List CharInfo)
+    (i : Nat) (s : LexState) (hs : Ready s) (ho : Opener op.c c k) (hcl : cl.c = c) (hne : body ≠ [])
+    (hrun : qRun [c] 0 (body.map (·.c)) = some ([c], 0)) :
+    lexLoop (op :: body ++ cl :: tail) i s = lexLoop tail (i + body.length + 2)
+      { qc := [], take := 0, tok := Tok.fresh,
+        out := updAll (Tok.opened k i) body (i + 1) :: (if s.tok.nonempty then s.tok :: s.out else s.out) } := by
+  obtain ⟨hq, ht, _⟩ := hs
+  obtain ⟨qc, take, tok, out⟩ := s
+  simp only at hq ht
+  subst hq ht
+  let o1 : List Tok := if tok.nonempty then tok :: out else out
+  have hopen : lexStep ⟨[], 0, tok, out⟩ i op = .ok ⟨[c], 0, Tok.opened k i, o1⟩ := by
+    unfold lexStep lexTop
+    rcases ho with ⟨h1, rfl, rfl⟩ | ⟨h1, rfl, rfl⟩ | ⟨h1, rfl, rfl⟩ <;>
+      by_cases hn : tok.nonempty = true <;> simp [h1, hn, o1]
+  simp only [List.cons_append, lexLoop, hopen]
+  rw [lexLoop_in_quote body (cl :: tail) (i + 1) _ [c] 0 (by simp) (Or.inr (by simp)) hrun]
+  have hnon : (updAll (Tok.opened k i) body (i + 1)).nonempty = true := by
+    unfold Tok.nonempty
+    rw [(updAll_text body (Tok.opened k i) (i + 1)).1]
+    cases body with
+    | nil => exact absurd rfl hne
+    | cons c cs => simp [Tok.opened]
+  have hclose : lexStep { qc := [c], take := 0, tok := updAll (Tok.opened k i) body (i + 1), out := o1 }
+      (i + 1 + body.length) cl
+      = .ok { qc := [], take := 0, tok := Tok.fresh, out := updAll (Tok.opened k i) body (i + 1) :: o1 } := by
+    unfold lexStep lexQuoted
+    rcases ho with ⟨_, rfl, _⟩ | ⟨_, rfl, _⟩ | ⟨_, rfl, _⟩ <;> simp [hcl, hnon]
+  simp only [lexLoop, hclose]
+  congr 1
+  omega
+
+/-- a call `name(…)[…]…` followed by whitespace, from a between-tokens state: ONE python token -/
+theorem loop_call (name : List CharInfo) (gs : List Group) (sp : CharInfo) (tail : List CharInfo) (i : Nat)
+    (s : LexState) (hs : Ready s) (hname : IsName name) (hgs : gs ≠ []) (hbal : ∀ g ∈ gs, g.Balanced)
+    (hsp : SpaceChar sp) :
+    lexLoop (name ++ chain gs ++ sp :: tail) i s = lexLoop tail (i + (name ++ chain gs).length + 1)
+      { qc := [], take := 0, tok := Tok.fresh,
+        out := callTok (name ++ chain gs) i :: (if s.tok.nonempty then s.tok :: s.out else s.out) } := by
+  rw [lexLoop_call name gs (sp :: tail) i s (ready_start hs) hname hgs hbal]
+  simp only [lexLoop]
+  have hne : name ≠ [] := by
+    obtain ⟨_, ci, hci, _⟩ := hname
+    intro h; rw [h] at hci; simp at hci
+  have hn : (callTok (name ++ chain gs) i).nonempty = true := by
+    cases name with
+    | nil => exact absurd rfl hne
+    | cons c cs => simp [callTok, Tok.nonempty]
+  rw [step_space_flush _ _ sp rfl rfl hn (Or.inr (Or.inr rfl)) hsp, flush_out_ready hs]
+
+
 /-! ### token lists and their rendering -/
 
 /-- a token as it is written -/
@@ -255,6 +322,9 @@ inductive LT
   | isin                      -- `%in%`
   | lpar
   | rpar
+  | bq (body : List Char)     -- a back-quoted name `` `body` ``
+  | braces (body : List Char) -- a brace-quoted Python fragment `{body}`
+  | call (name : List Char) (groups : List (Char × List Char × Char))   -- `name(…)[…]…`: a Python fragment
 
 /-- Python's `re` classes as data: every character with its `[\.\_\w]` / `\s` flags -/
 structure Classes where
@@ -263,12 +333,18 @@ structure Classes where
 
 variable (C : Classes)
 
+/-- the characters of the bracket groups of a call -/
+def groupText (gs : List (Char × List Char × Char)) : List Char := gs.flatMap (fun g => g.1 :: g.2.1 ++ [g.2.2])
+
 def LT.text : LT → List Char
   | .word cs => cs
   | .op cs => cs
   | .isin => ['%', 'i', 'n', '%']
   | .lpar => ['(']
   | .rpar => [')']
+  | .bq body => '`' :: body ++ ['`']
+  | .braces body => '{' :: body ++ ['}']
+  | .call name gs => name ++ groupText gs
 
 /-- the token (without source span) the tokenizer makes of it -/
 def LT.tok : LT → Tok
@@ -277,11 +353,27 @@ def LT.tok : LT → Tok
   | .isin => { text := ['i', 'n'], kind := some .operator }
   | .lpar => { text := ['('], kind := some .context }
   | .rpar => { text := [')'], kind := some .context }
+  | .bq body => { text := body, kind := some .name }
+  | .braces body => { text := body, kind := some .python }
+  | .call name gs => { text := name ++ groupText gs, kind := some .python }
+
+/-- the bracket groups of a call as `C15Call.Group`s -/
+def groupsOf (gs : List (Char × List Char × Char)) : List Group :=
+  gs.map (fun g => { op := C.cl g.1, body := g.2.1.map C.cl, cl := C.cl g.2.2 })
 
 def LT.Ok : LT → Prop
   | .word cs => cs ≠ [] ∧ ∀ c ∈ cs, NameChar (C.cl c)
   | .op cs => cs ≠ [] ∧ ∀ c ∈ cs, OpChar (C.cl c)
+  | .bq body => body ≠ [] ∧ qRun ['`'] 0 body = some (['`'], 0)
+  | .braces body => body ≠ [] ∧ qRun ['}'] 0 body = some (['}'], 0)
+  | .call name gs => IsName (name.map C.cl) ∧ gs ≠ [] ∧
+      ∀ g ∈ gs, Bracket g.1 g.2.2 ∧ qRun [g.2.2] 0 g.2.1 = some ([g.2.2], 0)
   | _ => True
+
+instance (o c : Char) : Decidable (Bracket o c) := by unfold Bracket; infer_instance
+
+instance (lt : LT) : Decidable (lt.Ok C) := by
+  cases lt <;> unfold LT.Ok <;> infer_instance
 
 def LT.isOp : LT → Bool
   | .op _ => true
@@ -418,6 +510,83 @@ theorem lex_render (hsp : SpaceChar (C.cl ' ')) : ∀ (lts : List LT) (s : LexSt
       simp only [List.map_append, List.map_cons, List.map_nil, List.append_assoc, List.cons_append,
         List.nil_append]
       rfl
+    | bq body =>
+      obtain ⟨hne, hrun⟩ := hok (.bq body) (by simp)
+      have hne' : body.map C.cl ≠ [] := by simpa using hne
+      simp only [LT.text, List.map_cons, List.map_append, List.map_nil, List.cons_append, List.append_assoc,
+        List.nil_append]
+      have hq := loop_quoted (body.map C.cl) (C.cl '`') (C.cl '`') '`' .name (C.cl ' ' :: render C r) i s hs
+        (Or.inr (Or.inr ⟨C.c_eq _, rfl, rfl⟩)) (C.c_eq _) hne' (by rw [map_c]; exact hrun)
+      rw [List.cons_append] at hq
+      rw [hq]
+      simp only [lexLoop]
+      rw [step_space _ _ _ (ready_fresh _) hsp]
+      simp only
+      obtain ⟨s', h1, h2, h3⟩ := lex_render hsp r _ (i + (body.map C.cl).length + 2 + 1) (ready_fresh _)
+        (fun h => absurd rfl h) hokr hadjr
+      refine ⟨s', h1, h2, ?_⟩
+      rw [h3, allToks_fresh s.out _ s rfl]
+      simp only [List.map_append, List.map_cons, List.map_nil, List.append_assoc, List.cons_append,
+        List.nil_append]
+      congr 2
+      have ht := updAll_text (body.map C.cl) (Tok.opened .name i) (i + 1)
+      have he : LT.tok C (.bq body) = erase (LT.tok C (.bq body)) := rfl
+      rw [he]
+      exact C15Ws.erase_eq (by rw [ht.1, map_c]; rfl) (by rw [ht.2]; rfl)
+    | braces body =>
+      obtain ⟨hne, hrun⟩ := hok (.braces body) (by simp)
+      have hne' : body.map C.cl ≠ [] := by simpa using hne
+      simp only [LT.text, List.map_cons, List.map_append, List.map_nil, List.cons_append, List.append_assoc,
+        List.nil_append]
+      have hq := loop_quoted (body.map C.cl) (C.cl '{') (C.cl '}') '}' .python (C.cl ' ' :: render C r) i s hs
+        (Or.inr (Or.inl ⟨C.c_eq _, rfl, rfl⟩)) (C.c_eq _) hne' (by rw [map_c]; exact hrun)
+      rw [List.cons_append] at hq
+      rw [hq]
+      simp only [lexLoop]
+      rw [step_space _ _ _ (ready_fresh _) hsp]
+      simp only
+      obtain ⟨s', h1, h2, h3⟩ := lex_render hsp r _ (i + (body.map C.cl).length + 2 + 1) (ready_fresh _)
+        (fun h => absurd rfl h) hokr hadjr
+      refine ⟨s', h1, h2, ?_⟩
+      rw [h3, allToks_fresh s.out _ s rfl]
+      simp only [List.map_append, List.map_cons, List.map_nil, List.append_assoc, List.cons_append,
+        List.nil_append]
+      congr 2
+      have ht := updAll_text (body.map C.cl) (Tok.opened .python i) (i + 1)
+      have he : LT.tok C (.braces body) = erase (LT.tok C (.braces body)) := rfl
+      rw [he]
+      exact C15Ws.erase_eq (by rw [ht.1, map_c]; rfl) (by rw [ht.2]; rfl)
+    | call name gs =>
+      obtain ⟨hname, hgs, hbal⟩ := hok (.call name gs) (by simp)
+      have hchain : ∀ gs : List (Char × List Char × Char), (groupText gs).map C.cl = chain (groupsOf C gs) := by
+        intro gs
+        induction gs with
+        | nil => rfl
+        | cons g gs ih =>
+          simp only [groupText, chain, groupsOf, List.flatMap_cons, List.map_append, List.map_cons, List.map_nil,
+            Group.chars] at ih ⊢
+          rw [ih]
+      have hgs' : groupsOf C gs ≠ [] := by
+        cases gs with
+        | nil => exact absurd rfl hgs
+        | cons g gs => simp [groupsOf]
+      have hbal' : ∀ g ∈ groupsOf C gs, g.Balanced := by
+        intro g hg
+        obtain ⟨g0, hg0, rfl⟩ := List.mem_map.1 hg
+        obtain ⟨hb, hr⟩ := hbal g0 hg0
+        exact ⟨g0.2.2, by rw [C.c_eq]; exact hb, by rw [C.c_eq], by rw [map_c]; exact hr⟩
+      simp only [LT.text, List.map_append, hchain]
+      rw [loop_call (name.map C.cl) (groupsOf C gs) (C.cl ' ') (render C r) i s hs hname hgs' hbal' hsp]
+      obtain ⟨s', h1, h2, h3⟩ := lex_render hsp r _ (i + (name.map C.cl ++ chain (groupsOf C gs)).length + 1)
+        (ready_fresh _) (fun h => absurd rfl h) hokr hadjr
+      refine ⟨s', h1, h2, ?_⟩
+      rw [h3, allToks_fresh s.out _ s rfl]
+      simp only [List.map_append, List.map_cons, List.map_nil, List.append_assoc, List.cons_append,
+        List.nil_append]
+      congr 2
+      have he : LT.tok C (.call name gs) = erase (LT.tok C (.call name gs)) := rfl
+      rw [he]
+      exact C15Ws.erase_eq (by simp only [callTok, LT.tok, List.map_append, ← hchain, map_c]) rfl
     | lpar =>
       simp only [LT.text, List.map_cons, List.map_nil, List.cons_append, List.nil_append, lexLoop]
       rw [step_paren s i _ hs (Or.inl (C.c_eq _))]
